@@ -79,6 +79,28 @@ def tokenize(src: str, seeded_error: bool = False):
         toks.append(RefToken(start, i, parts))
 
 
+def first_token_span(src: str, p: int):
+    """-> (start, end) of the first token at or after offset p; end is -1 if the token contains an
+    unterminated quote; None if only separators follow p."""
+    n = len(src)
+    i = p
+    while i < n and src[i] in WS:
+        i += 1
+    if i >= n:
+        return None
+    start = i
+    while i < n and src[i] not in WS:
+        c = src[i]
+        if c == SOFT or c == HARD:
+            j = src.find(c, i + 1)
+            if j == -1:
+                return (start, -1)
+            i = j + 1
+        else:
+            i += 1
+    return (start, i)
+
+
 def has_unquoted(src: str, ch: str) -> bool:
     """`ch` occurs in `src` outside quotes (an unterminated quote extends to the end)."""
     q = ''
